@@ -9,7 +9,17 @@ opt <= best <= (1 + objective_tolerance) * opt (relative 1e-5), a mapping must b
 whenever one exists, and every returned row must pass the structural validator
 mc/validate.py (incl. explicit peak-occupancy simulation against the memory sizes).
 
-Mutation self-test (scratch copies, quick tier; see report at the bottom of this docstring).
+Mutation self-test (scratch copies /tmp/af-mut-*; under the machine load of the session each mutant
+was run through `./check C16 --replay` on configurations of the quick grid, not the whole tier):
+  1. pareto.py logscale_to_tolerance: bucket width log(1+t) -> 2*log(1+t) (tolerance applied twice,
+     multiplicatively): CAUGHT on MV2-222/tight, E, (0.5, 0): "No mappings found for E0 <--> E1"
+     -> tolerance-loses-all-mappings/ot (MM1-622/tight E ratio 1.21 stays inside the bound).
+  2. make_tile_shapes.py validity check `result <= objective.max_value` ->
+     `result <= objective.max_value * (1 + objective.tolerance)` (resource tolerance applied to the
+     capacity check): CAUGHT on MM1-422/tight, E, (0, 0.5): the mapper picks a mapping using 88 of
+     64 bits of Buf and its own final evaluation raises -> tolerance-loses-all-mappings/rt.
+  3. pmapping_dataframe.py limit_capacity `<= 1 + tolerance` -> `< 1 + tolerance`: MISSED on
+     MV2-222/tight and MM1-422/tight at (0.01, 0) (no optimum of the bound sits exactly at 100%).
 """
 
 from __future__ import annotations
